@@ -453,6 +453,9 @@ struct BigHist {
 
 impl BigHist {
     fn check(&mut self, k: usize, what: &str) {
+        if self.sp.as_ref().map(|s| s.n >= 1 << 63).unwrap_or(false) {
+            self.sp = None; // outside the property's domain (< 2^63 leafs: node indices fit u64)
+        }
         let Some(sp) = &mut self.sp else { return };
         if sp.peaks() != self.acc.peaks() || self.acc.num_leafs() != sp.n {
             self.fails.push(format!("op {k} ({what}): accumulator differs from the peaks recomputed by folding"));
@@ -649,13 +652,15 @@ fn gen_big_history(rng: &mut Rng, len: u64) -> String {
         }
     }
     for step in 0..len {
+        // the property's domain is < 2^63 leafs (node indices fit u64): never append beyond 2^63 - 1
+        let room = ((1u64 << 63) - 1).saturating_sub(sp.n);
         let mat: Vec<u64> = sp.leafs.keys().copied().collect();
         let mut order = perm(rng, tracked.len());
         if rng.coin(1, 4) {
             order.sort();
         }
         let new_tracked: Vec<u64> = order.iter().map(|&s| tracked[s as usize]).collect();
-        let kind = if step == 0 { 9 } else { rng.below(10) };
+        let kind = if room == 0 { 3 + rng.below(5) } else if step == 0 { 9 } else { rng.below(10) };
         match kind {
             0..=2 => {
                 let d = dg(rng);
@@ -697,7 +702,7 @@ fn gen_big_history(rng: &mut Rng, len: u64) -> String {
             }
             _ => {
                 // run of appends: the first one makes the carry ripple through the run of ones
-                let m = if step == 0 { (m0 as u64).clamp(1, 8) } else { rng.range(1, 4) };
+                let m = (if step == 0 { (m0 as u64).clamp(1, 8) } else { rng.range(1, 4) }).min(room);
                 let s2 = rng.below(1 << 32);
                 ops.push(format!("(3;{};{};{})", m, s2, rng.below(2)));
                 for _ in 0..m {
